@@ -136,6 +136,9 @@ func GenerateFingerprint(fn *ssa.Function, policy ir.LiteralPolicy, strictMode b
 	defer ir.ReleaseCanonicalizer(canonicalizer)
 
 	canonicalizer.StrictMode = strictMode
+	canonicalizer.FuncLitFingerprint = func(lit *ssa.Function) string {
+		return GenerateFingerprint(lit, policy, strictMode).Fingerprint
+	}
 	canonicalizer.ApplyVirtualControlFlowFromState(virtualCF.swappedBlocks, virtualCF.virtualBinOps)
 	canonicalIR := canonicalizer.CanonicalizeFunction(fn)
 
